@@ -26,6 +26,7 @@ type c09Prog struct {
 	// function matches the same union completely) | "shared-case" (a later union has a case of the same
 	// name as one of this union's cases) | "both"
 	Pre string `json:"pre,omitempty"`
+	Dup bool   `json:"dup,omitempty"` // one arm is written twice (decision only: Go rejects a duplicate case in a type switch)
 }
 
 func (p *c09Prog) caseName(i int) string { return fmt.Sprintf("%c%d", 'A'+i, p.Idx) }
@@ -100,6 +101,13 @@ func (p *c09Prog) source(standalone bool) string {
 	case "lambda":
 		fmt.Fprintf(&b, "let g%d (us:[]U%d) =\n  us |> slice.Map (fun (u:U%d) ->\n    match u with\n", p.Idx, p.Idx, p.Idx)
 		// the last arm carries the closing parenthesis of the lambda
+		b.WriteString(strings.TrimRight(arms("    "), "\n") + ")\n")
+		fmt.Fprintf(&b, "\nlet f%d (u:U%d) =\n  g%d [u] |> slice.Head\n\n", p.Idx, p.Idx, p.Idx)
+	case "lambda-untyped":
+		// the target's type is known only after inference (an unannotated lambda parameter): fc needs it
+		// while parsing and rejects such a match today ("Cast fail"), complete or not; a tree that accepts
+		// it must still reject the incomplete ones
+		fmt.Fprintf(&b, "let g%d (us:[]U%d) =\n  us |> slice.Map (fun u ->\n    match u with\n", p.Idx, p.Idx)
 		b.WriteString(strings.TrimRight(arms("    "), "\n") + ")\n")
 		fmt.Fprintf(&b, "\nlet f%d (u:U%d) =\n  g%d [u] |> slice.Head\n\n", p.Idx, p.Idx, p.Idx)
 	case "inmatch-default", "inmatch-case":
@@ -231,6 +239,12 @@ func c09Property(p *c09Prog, o c09Obs) string {
 	if o.timeout {
 		return "fc did not terminate"
 	}
+	if c09Limit(p, o) {
+		if o.genFile {
+			return "rejected but an output file was written"
+		}
+		return ""
+	}
 	if mustAccept {
 		if !o.accepted {
 			return "a match that covers every case or ends with a default arm was rejected: " + firstLine(o.out)
@@ -260,6 +274,12 @@ func c09Property(p *c09Prog, o c09Obs) string {
 	return "diagnostic names something that is not a case of the union: " + o.named
 }
 
+// c09Limit: the match target is not typed when the match is parsed and fc says so (not a coverage decision)
+func c09Limit(p *c09Prog, o c09Obs) bool {
+	return p.Context == "lambda-untyped" && !o.accepted &&
+		(strings.Contains(o.out, "Cast fail") || strings.Contains(o.out, "Unknown case rule") || strings.Contains(o.out, "Can't distinguish String var pattern"))
+}
+
 func firstLine(s string) string {
 	s = strings.TrimSpace(s)
 	lines := strings.Split(s, "\n")
@@ -269,7 +289,7 @@ func firstLine(s string) string {
 func c09Gen(c *Ctx, rng *Rng) []*c09Prog {
 	var progs []*c09Prog
 	variants := c.Pick(2, 12)
-	contexts := []string{"fn", "fn", "ifbranch", "letrhs", "lambda", "inmatch-default", "inmatch-case"}
+	contexts := []string{"fn", "fn", "ifbranch", "letrhs", "lambda", "inmatch-default", "inmatch-case", "lambda-untyped"}
 	idx := 0
 	for n := 1; n <= 5; n++ {
 		for _, arms := range orderedSubsets(n) {
@@ -286,6 +306,15 @@ func c09Gen(c *Ctx, rng *Rng) []*c09Prog {
 						} else {
 							p.Forms = append(p.Forms, Choose(rng, []string{"bind", "ignore", "none"}))
 						}
+					}
+					if rng.Chance(1, 6) {
+						// a repeated arm: the number of arms says nothing about the number of cases covered
+						k := rng.Intn(len(p.Arms))
+						at := rng.Intn(len(p.Arms) + 1)
+						p.Arms = append(append(append([]int{}, p.Arms[:at]...), p.Arms[k]), p.Arms[at:]...)
+						fk := p.Forms[k]
+						p.Forms = append(append(append([]string{}, p.Forms[:at]...), fk), p.Forms[at:]...)
+						p.Dup = true
 					}
 					p.Pre = Choose(rng, []string{"", "", "complete-first", "shared-case", "both"})
 					p.Context = contexts[rng.Intn(len(contexts))]
@@ -353,7 +382,7 @@ func runC09(c *Ctx) {
 	var accepted []*c09Prog
 	for i, p := range progs {
 		o := obs[i]
-		key := fmt.Sprintf("%v|%v|%v|%v|%s|%v", p.Payloads, p.Arms, p.Forms, p.Default, p.Context, p.Unit)
+		key := fmt.Sprintf("%v|%v|%v|%v|%s|%v|%s", p.Payloads, p.Arms, p.Forms, p.Default, p.Context, p.Unit, p.Pre)
 		c.Count(fmt.Sprintf("unit_arms=%v", p.Unit))
 		c.Eval(key, len(p.Payloads) >= 2)
 		c.Count(fmt.Sprintf("cases=%d", len(p.Payloads)))
@@ -370,6 +399,10 @@ func runC09(c *Ctx) {
 		c.Compared(1)
 		modelAccept := verdict == "ACCEPT"
 		bad := c09Property(p, o)
+		if c09Limit(p, o) {
+			c.Count("untyped_target_rejected_by_the_parser")
+			modelAccept = o.accepted
+		}
 		if modelAccept != o.accepted {
 			c.Disagree()
 			if bad == "" {
@@ -381,8 +414,13 @@ func runC09(c *Ctx) {
 		if bad != "" {
 			c.Violate("prop", bad, map[string]any{"program": p, "source": p.source(true), "fc_output": o.out, "fc_exit": o.exit}, false)
 		}
+		if p.Dup {
+			c.Count("repeated_arm")
+		}
 		if o.accepted && modelAccept {
-			accepted = append(accepted, p)
+			if !p.Dup {
+				accepted = append(accepted, p)
+			}
 			c.Count("accepted")
 		} else {
 			c.Count("rejected")
